@@ -253,10 +253,19 @@ def check(prop, tier, seed):
 
     # ---- 4. correspondence streams + oracles -------------------------------------------------
     stats = {}
-    driver = C.LeanDriver(mod.DRIVER) if getattr(mod, "DRIVER", None) else None
+    drivers = {}
+
+    def driver_for(stream):
+        path = getattr(stream, "driver", None) or getattr(mod, "DRIVER", None)
+        if not path:
+            return None
+        if path not in drivers:
+            drivers[path] = C.LeanDriver(path)
+        return drivers[path]
     streams = mod.streams(ctx)
     try:
         for s in streams:
+            driver = driver_for(s)
             s.setup(ctx)
             try:
                 st = run_stream(ctx, mod, s, driver, stats, budget_scale=4.0 if broken_obligation else 1.0)
@@ -276,8 +285,8 @@ def check(prop, tier, seed):
         if broken_obligation and not ctx.violations:
             report_unexplained(ctx, broken_obligation[0], broken_obligation[1])
     finally:
-        if driver:
-            driver.close()
+        for d in drivers.values():
+            d.close()
 
     # ---- 5. evidence ---------------------------------------------------------------------------
     evaluations = sum(s["evaluations"] for s in stats.values())
